@@ -53,7 +53,7 @@ func Shape(r *rand.Rand, shape int, ids []string, types []sbom.Edge_Type) (edges
 	if n == 0 {
 		return nil, nil, "empty"
 	}
-	switch shape % 13 {
+	switch shape % 14 {
 	case 0:
 		name = "singleton-or-isolated"
 		roots = []string{ids[0]}
@@ -141,6 +141,22 @@ func Shape(r *rand.Rand, shape int, ids []string, types []sbom.Edge_Type) (edges
 		if n > 1 {
 			add(ids[n-1], et(), ids[0])
 		}
+	case 12:
+		name = "parallel-edges-of-different-types"
+		// the same ordered pair linked by several edges of different types (and both directions)
+		for i := 0; i+1 < n; i++ {
+			add(ids[i], types[0], ids[i+1])
+			add(ids[i], types[len(types)-1], ids[i+1])
+			if r.Intn(2) == 0 {
+				add(ids[i], et(), ids[i+1])
+				add(ids[i+1], types[0], ids[i])
+			}
+		}
+		if n == 1 {
+			add(ids[0], types[0], ids[0])
+			add(ids[0], types[len(types)-1], ids[0])
+		}
+		roots = []string{ids[0]}
 	default:
 		name = "random"
 		for i := 0; i < n; i++ {
@@ -328,7 +344,7 @@ func UniqueIDs(r *rand.Rand, n int, mk func(*rand.Rand) string) []string {
 }
 
 // SPDXDoc draws a document of the SPDX-representable class. k forces coverage:
-// edge type 1+k%44 and checksum algorithm k%16 appear in the document, the shape is k%13.
+// edge type 1+k%44 and checksum algorithm k%16 appear in the document, the shape is k%14.
 func SPDXDoc(r *rand.Rand, k, maxNodes int) (*sbom.Document, string) {
 	doc := sbom.NewDocument()
 	doc.Metadata.Id = "urn:uuid:" + hexish(r)
@@ -339,7 +355,7 @@ func SPDXDoc(r *rand.Rand, k, maxNodes int) (*sbom.Document, string) {
 	}
 	ids := UniqueIDs(r, n, IDSpdx)
 	forced := sbom.Edge_Type(1 + k%44)
-	types := []sbom.Edge_Type{forced, sbom.Edge_Type(1 + r.Intn(44)), sbom.Edge_Type(1 + r.Intn(44))}
+	types := []sbom.Edge_Type{forced, sbom.Edge_Type(1 + r.Intn(44)), sbom.Edge_Type(1 + (int(forced)+r.Intn(43))%44)}
 	for i, id := range ids {
 		fa := -1
 		if i == 0 {
